@@ -114,8 +114,10 @@ class ADWIN(StreamingDetector):
             raise ValueError("ADWIN should only be used to monitor 1 variable.")
         super().update(X, None, None)
 
-        # the array should have a single element after validation.
-        X = X[0][0]
+        # the array should have a single element after validation; as a Python
+        # float, so the running sums do not take on (and overflow or round in)
+        # a narrow input dtype such as uint8 or float32
+        X = float(X[0][0])
 
         # add new sample to the head of the window
         self._window_size += 1
